@@ -958,7 +958,83 @@ func dectotDeep(c *Ctx, t *dectotTarget) {
 	}
 }
 
+// dectotGroupFields lists the group-typed fields of md and of the messages one level below it.
+func dectotGroupAimed(c *Ctx, t *dectotTarget) bool {
+	type cand struct {
+		outer protoreflect.FieldDescriptor // nil: the group field is a field of md
+		fd    protoreflect.FieldDescriptor
+	}
+	var cands []cand
+	scan := func(md protoreflect.MessageDescriptor, outer protoreflect.FieldDescriptor) {
+		fds := md.Fields()
+		for i := 0; i < fds.Len(); i++ {
+			if fd := fds.Get(i); fd.Kind() == protoreflect.GroupKind {
+				cands = append(cands, cand{outer, fd})
+			}
+		}
+		for _, xd := range msgExtensionsOf(md) {
+			if xd.Kind() == protoreflect.GroupKind {
+				cands = append(cands, cand{outer, xd})
+			}
+		}
+	}
+	scan(t.md, nil)
+	fds := t.md.Fields()
+	for i := 0; i < fds.Len(); i++ {
+		if fd := fds.Get(i); fd.Kind() == protoreflect.MessageKind && !fd.IsMap() {
+			scan(fd.Message(), fd)
+		}
+	}
+	if len(cands) == 0 {
+		return false
+	}
+	cd := cands[c.Intn(len(cands))]
+	num := cd.fd.Number()
+	var content []byte
+	if sub := lazyTypeOf(cd.fd.Message()); sub != nil && c.Bool() {
+		content = lazyFillBytes(c, sub, 1, 6)
+	}
+	end := num
+	what := "group_ok"
+	switch c.Intn(6) {
+	case 0:
+		end = num + 1
+		what = "group_mismatch"
+	case 1:
+		end = num - 1
+		if end < 1 {
+			end = num + 2
+		}
+		what = "group_mismatch"
+	case 2:
+		end = 0 // no end marker
+		what = "group_unterminated"
+	case 3:
+		// an inner group of another number closes first
+		content = append(content, protowire.AppendTag(nil, num+7, protowire.StartGroupType)...)
+		content = append(content, protowire.AppendTag(nil, num, protowire.EndGroupType)...)
+		what = "group_crossed"
+	}
+	b := protowire.AppendTag(nil, num, protowire.StartGroupType)
+	b = append(b, content...)
+	if end != 0 {
+		b = protowire.AppendTag(b, end, protowire.EndGroupType)
+	}
+	if c.Intn(3) == 0 {
+		b = append(b, protowire.AppendTag(nil, num, protowire.EndGroupType)...) // a stray end marker after the group
+		what = "group_stray_end"
+	}
+	if cd.outer != nil {
+		b = protowire.AppendBytes(protowire.AppendTag(nil, cd.outer.Number(), protowire.BytesType), b)
+	}
+	dectotOne(c, t, b, dectotLimitFor(c, t), what)
+	return true
+}
+
 func dectotRandom(c *Ctx, t *dectotTarget) {
+	if c.Intn(3) == 0 && dectotGroupAimed(c, t) {
+		return
+	}
 	switch c.Intn(3) {
 	case 0:
 		dectotOne(c, t, c.Bytes(c.Intn(24)), 0, "random")
